@@ -99,6 +99,8 @@ func (inv cliInv) argv() []string {
 		a = append(a, "--file", "in.md")
 	case "missing":
 		a = append(a, "--file", "nope.md")
+	case "dollar":
+		a = append(a, "--file", "in$HOME.md")
 	}
 	if inv.DryRun {
 		a = append(a, "--dry-run")
@@ -135,6 +137,9 @@ func runCLI(bin, dir string, inv cliInv) cliRun {
 	doc := cliDocs[inv.Doc]
 	if inv.File == "existing" {
 		os.WriteFile(filepath.Join(dir, "in.md"), []byte(doc), 0o644)
+	}
+	if inv.File == "dollar" { // (the name is not what a shell-like expansion makes of it)
+		os.WriteFile(filepath.Join(dir, "in$HOME.md"), []byte(doc), 0o644)
 	}
 	cmd := exec.Command(bin, inv.argv()...)
 	cmd.Dir = dir
@@ -226,7 +231,7 @@ func listDir(dir string) []string {
 			return nil
 		}
 		rel, _ := filepath.Rel(dir, p)
-		if rel == "in.md" {
+		if rel == "in.md" || rel == "in$HOME.md" {
 			return nil
 		}
 		k := "f:"
